@@ -381,3 +381,31 @@ Definition xassign_sub (fmt : Z) (x : xrec) (name : string) (vs : list Z) : opti
                       end)
   | _ => None
   end.
+
+(* ======================= round 7: assignment BY ATTRIBUTE in a world of objects of DIFFERENT formats =======================
+   obj.name = vs (LasData.__setattr__ / PackedPointRecord.__setattr__). The name is looked up in the layout OF THE OBJECT
+   THAT IS ASSIGNED TO (the sub-fields of ITS format; `fields` = the fields of ITS array), by `resolve`:
+     a sub-field of the object        -> the whole-dimension assignment of the single-record model on that object (WAssign);
+     a field of its array             -> numpy's assignment of that field (not this property's: no packed byte changes);
+     no dimension of THIS object      -> python keeps an attribute (or the call is refused): no point of any object changes.
+   Nothing else takes part: not the other objects of the world, not what was assigned under that name earlier to an object
+   of a format where the name resolves differently (overlap / scanner_channel are sub-fields of formats 6-10 and no
+   dimension of formats 0-5). *)
+Definition wattr (w : world) (a : nat) (fields : list string) (name : string) (vs : list Z) : world * option err :=
+  match resolve (obj_fmt w a) fields name with
+  | TSub _ _ => wstep w (WAssign a (OSeq (canon name) vs))
+  | _ => (w, None)
+  end.
+
+Inductive wop7 :=
+| WOp (o : wop)
+| WAttr (a : nat) (fields : list string) (name : string) (vs : list Z).
+
+Definition wstep7 (w : world) (o : wop7) : world * option err :=
+  match o with WOp o => wstep w o | WAttr a fields name vs => wattr w a fields name vs end.
+
+Fixpoint wrun7 (w : world) (ops : list wop7) : list (world * option err) :=
+  match ops with
+  | [] => []
+  | o :: t => let s := wstep7 w o in s :: wrun7 (fst s) t
+  end.
